@@ -42,6 +42,8 @@ package main
 //@   modifies *
 //@   ensures t.lastID >= old(t.lastID) && t.name == old(t.name) && t.cat == old(t.cat)
 //@   ensures rowMax[t.name] <= t.lastID || rowMax[t.name] == old(rowMax[t.name])
+//@   ensures forall u types.Uid :: old(u in t.perUser) ==> (u in t.perUser) && t.perUser[u].readID >= old(t.perUser[u].readID) && t.perUser[u].recvID >= old(t.perUser[u].recvID) && (old(marksOK(t, u)) ==> marksOK(t, u))
+//@   ensures forall u types.Uid :: (u in t.perUser) && !old(u in t.perUser) ==> marksOK(t, u)
 
 // ---------------------------------------------------------------------------------------------
 // C01: message ids
@@ -116,4 +118,30 @@ package main
 //@   assert at call saveAndBroadcastMessage [C03] live: !topicBlocked(t)
 //@   ensures [C03] blocked_no_effect: old(topicBlocked(t)) ==> t.lastID == old(t.lastID) && rowMax == old(rowMax) && hwm == old(hwm)
 //@   ensures [C03] blocked_one_reply: old(topicBlocked(t)) ==> outCount[msg.sess] == old(outCount[msg.sess]) + 1 && (forall s int :: s != ref(msg.sess) ==> outCount[s] == old(outCount[s]))
+//@   modifies *
+
+// Call events can publish the replacement message of a call (the originator's marks then jump to the new message);
+// they never lower a mark or lastID. (Assumed here; the call functions have their own contracts under C15.)
+//@ func (t *Topic) handleCallEvent(msg *ClientComMessage)
+//@   trusted
+//@   modifies *
+//@   ensures t.lastID >= old(t.lastID) && t.name == old(t.name) && t.cat == old(t.cat)
+//@   ensures forall u types.Uid :: old(u in t.perUser) ==> (u in t.perUser) && t.perUser[u].readID >= old(t.perUser[u].readID) && t.perUser[u].recvID >= old(t.perUser[u].recvID) && (old(marksOK(t, u)) ==> marksOK(t, u))
+//@   ensures forall u types.Uid :: (u in t.perUser) && !old(u in t.perUser) ==> marksOK(t, u)
+
+// ---------------------------------------------------------------------------------------------
+// C09: read / received marks
+// ---------------------------------------------------------------------------------------------
+//@ spec func marksOK(t *Topic, u types.Uid) bool { return 0 <= t.perUser[u].readID && t.perUser[u].readID <= t.perUser[u].recvID && t.perUser[u].recvID <= t.lastID }
+
+//@ func (t *Topic) handleNoteBroadcast(msg *ClientComMessage)
+//@   requires [C09] t != nil && msg != nil && msg.Note != nil && msg.sess != nil
+//@   requires [C09] inv_marks: forall u types.Uid :: u in t.perUser ==> marksOK(t, u)
+//@   ensures [C09] inv_marks: forall u types.Uid :: u in t.perUser ==> marksOK(t, u)
+//@   ensures [C09] monotone:  forall u types.Uid :: old(u in t.perUser) ==> (u in t.perUser) && t.perUser[u].readID >= old(t.perUser[u].readID) && t.perUser[u].recvID >= old(t.perUser[u].recvID)
+//@   assert at call broadcastToSessions [C09] only_sender: forall u types.Uid :: u != types.ParseUserId(msg.AsUser) ==> (u in t.perUser) == old(u in t.perUser) && t.perUser[u].readID == old(t.perUser[u].readID) && t.perUser[u].recvID == old(t.perUser[u].recvID)
+//@   ensures [C09] future_dropped: old(msg.Note.SeqId > t.lastID) ==> (forall s int :: outCount[s] == old(outCount[s])) && (forall u types.Uid :: (u in t.perUser) == old(u in t.perUser) && t.perUser[u].readID == old(t.perUser[u].readID) && t.perUser[u].recvID == old(t.perUser[u].recvID))
+//@   ensures [C09] needs_read: old(msg.Note.What == "read" || msg.Note.What == "recv") && old((effMode(t, types.ParseUserId(msg.AsUser)) & types.ModeRead) == 0) ==> (forall s int :: outCount[s] == old(outCount[s])) && (forall u types.Uid :: t.perUser[u].readID == old(t.perUser[u].readID) && t.perUser[u].recvID == old(t.perUser[u].recvID))
+//@   assert at call Update [C09] recv_persisted: pud.recvID != old(t.perUser[types.ParseUserId(msg.AsUser)].recvID) ==> recv == pud.recvID
+//@   assert at call Update [C09] read_persisted: pud.readID != old(t.perUser[types.ParseUserId(msg.AsUser)].readID) ==> read == pud.readID
 //@   modifies *
